@@ -146,36 +146,65 @@ class C11(PropertyCheck):
         "QipVerif.C11.C11_counterexample_overlap",
         "QipVerif.C11.C11_counterexample_no_overlap",
     ]
-    level_text = ("Lean 4 theorems about the model of the pulse scheduler, for every list of timed instructions with non-negative "
-                  "(in particular positive) durations, ASAP and ALAP, permutation allowed or not, and every permutation-valued "
-                  "re-ordering oracle: start times are non-negative, the earliest is 0, an instruction starts only after every "
-                  "earlier qubit-sharing instruction it is not declared to commute with has finished (longest-path inequality), and "
-                  "no instruction finishes later than the sum of all durations. The no-overlap clause is stated in full and refuted "
-                  "(Lean counter-example [CNOT(0->1) d=10, SNOT(2) d=1, CNOT(0->2) d=1], ASAP => starts [0,0,1], reproduced on the code, "
-                  "known finding); it is proved under the explicit hypothesis that no qubit-sharing pair is declared commuting "
-                  "(always true with allow_permutation=False). The model is tied to the code by an exact comparison of start times "
-                  "(dyadic durations incl. equal / 2^-20 / 2^20) and cycles, exhaustive for short lists over a small alphabet with two durations.")
-    level_note = ("Four clauses proved, the fifth refuted and proved in its partial form. Trusted: Lean kernel; the harness; exactness of "
-                  "float arithmetic on the generated dyadic durations; stability of Python's list.sort.")
-    technique = ("Lean 4 proof (longest-path recurrence along a proved topological order, for an arbitrary re-ordering "
-                 "oracle) + model/implementation correspondence with exact start times")
+    level_text = ("Lean 4 theorems about the model of the pulse scheduler, for EVERY list of timed instructions with non-negative "
+                  "(in particular arbitrary positive) durations -- integers over a common denominator --, ASAP and ALAP, permutation "
+                  "allowed or not, and every permutation-valued re-ordering oracle of the scheduling pass (covers random_shuffle, the "
+                  "priority sort and the iteration order of the successor sets). For the repaired recording of hardware-conflict edges "
+                  "(an approved candidate gets an edge from every already executed instruction it shares a qubit with; the tree under "
+                  "test has it: tree_conflict_fix, regenerated from the source with ast) ALL FIVE clauses are theorems at full strength, "
+                  "bundled in timetable_valid_fixed (oracle-parametrised model) and timetable_valid_tree (the executable model the "
+                  "correspondence compares with the code): start times are non-negative (start_nonneg); the earliest start is 0 for a "
+                  "non-empty list (min_start_zero); an instruction starts only after every earlier qubit-sharing instruction that "
+                  "commutation_rules does not declare commuting with it has finished (dep_respected, longest-path inequality; every "
+                  "earlier qubit-sharing instruction when allow_permutation=False); no instruction finishes later than the sum of all "
+                  "durations (makespan_le_sum); no two distinct instructions sharing a qubit have intersecting execution intervals "
+                  "(no_overlap_fixed: noOverlap = true, no hypothesis besides durations >= 0). The first four clauses are proved for "
+                  "both variants of the recording. For the code BEFORE the repair the no-overlap clause is refuted "
+                  "(C11_counterexample_starts / _overlap / _no_overlap: [CNOT(0->1) d=10, SNOT(2) d=1, CNOT(0->2) d=1], ASAP => starts "
+                  "[0,0,1]) and proved in partial form (no_overlap_partial: no qubit-sharing pair declared commuting; "
+                  "no_overlap_without_permutation); the witness is replayed on the code on every check as a regression test of the fixed "
+                  "finding. The model is tied to the code by an exact comparison of start times (dyadic durations incl. equal / 2^-20 / "
+                  "2^20 mixtures) and cycles, exhaustive for short lists over a small alphabet with two durations, with recorded "
+                  "shuffles and with histories of up to 6 calls on one Scheduler object; the commutation rule and the conflict-edge "
+                  "flag of the model are regenerated from scheduler.py (Gen/SchedRule.lean, shared with C05).")
+    level_note = ("All five clauses proved at full strength for the tree under test (both methods, both permutation settings, every "
+                  "oracle, all non-negative integer durations over a common denominator). `dep_respected` speaks about the pairs the "
+                  "code's rule does not declare commuting; that the declared pairs really commute is C05 (schedule_den_C_full). The "
+                  "partial theorems and the counter-examples describe the old recording only. Trusted: Lean kernel; the translator "
+                  "py/translate/sched.py; the harness; exactness of float arithmetic on the generated dyadic durations (arbitrary float "
+                  "durations are only exercised by the oracle with a tolerance); stability of Python's list.sort.")
+    technique = ("Lean 4 proof (the returned cycles are a topological order of dependency + conflict edges; longest-path recurrence "
+                 "along it, for an arbitrary re-ordering oracle) + rule / conflict-edge variant regenerated from the source + "
+                 "model/implementation correspondence with exact start times")
     trusted_base = [
         "Lean 4.33 kernel; axioms propext, Classical.choice, Quot.sound",
+        "py/translate/sched.py (ast translator of commutation_rules, _SELF_COMMUTING_GATES and of the conflict-edge recording "
+        "(`executed` parameter, its loop in the approval branch, the argument passed by find_topological_order) into "
+        "Gen/SchedRule.lean)",
         "py/props/sched_common.py, py/props/c11.py, py/props/c05.py (harness; shadows `set` and `shuffle` in the scheduler "
         "module's namespace, /repo itself is untouched)",
         "durations are given to the model as integer numerators over 2^20; the implementation's float arithmetic is exact "
         "on the generated durations (all partial sums below 2^53), so equality of start times is exact",
         "Python's list.sort is a stable sort for the total preorder _compare_priority",
     ]
-    assumptions = ["durations are positive (the theorems need them non-negative; min_start_zero needs a non-empty list)"]
+    assumptions = [
+        "durations are non-negative numbers with a common denominator (the code only adds, subtracts, compares and maximises "
+        "them; rounding of arbitrary floats is outside the model); min_start_zero needs a non-empty list",
+        "at least one instruction uses a qubit (otherwise the code raises ValueError from max() of an empty set; model: err noqubits)",
+        "Scheduler.schedule is a function of its arguments, the two constructor settings and the shuffle outcomes (the model is "
+        "stateless); checked by histories of several calls on one Scheduler object",
+    ]
     rule = ("case = (instruction list as (name, targets, controls, duration numerator), method, allow_permutation, recorded "
-            "shuffles); non-trivial = at least two instructions sharing a qubit; start times and cycles compared exactly")
+            "shuffles, calls made before on the same Scheduler object); non-trivial = at least two instructions sharing a qubit; start times and cycles compared exactly")
 
     # ----------------------------------------------------------------------------------
     def _run_batch(self, ctx, res, batch, tag):
-        """batch: (specs, durs, method, perm, shuffle)"""
+        """batch: (specs, durs, method, perm, shuffle).  About a third of the cases are run on a Scheduler object shared with
+        the preceding cases of the same setting (a history of up to 6 calls, pulse output and cycles output alternating);
+        the model is stateless, so each result must be what the model answers for that call alone."""
         rng = ctx.rng
         lines, impl = [], []
+        chain = self._chain
         for specs, durs, method, perm, shuffle in batch:
             fields = [fields_of(s) + (d,) for s, d in zip(specs, durs)]
             try:
@@ -185,26 +214,39 @@ class C11(PropertyCheck):
             except AssertionError:
                 raise
             except Exception as e:      # Instruction() is part of the code under test
-                impl.append(("other:" + type(e).__name__, None, None, None))
+                impl.append(("other:" + type(e).__name__, None, None, None, None))
                 lines.append(sc.model_line(method, perm, fields, None))
                 continue
+            sch, hist = chain.get(method, perm, 2) if rng.random() < 0.35 else (None, None)
             log = sc.ShuffleLog(rng) if shuffle else None
-            st, starts = sc.impl_schedule(ins, method, perm, log, random_shuffle=bool(shuffle))
+            st, starts = sc.impl_schedule(ins, method, perm, log, scheduler=sch, random_shuffle=bool(shuffle))
+            shuf = log.log if log else None
+            if hist is not None:
+                hist.append({"kind": "pulse", "ins": specs, "durs": durs, "den": sc.DEN, "shuf": shuf, "cycles": False})
             cyc = None
             if st == "ok":
                 log2 = sc.ShuffleLog(replay=log.log) if log else None
-                st, cyc = sc.impl_schedule(ins, method, perm, log2, return_cycles_list=True, random_shuffle=bool(shuffle))
-            shuf = log.log if log else None
-            impl.append((st, starts, cyc, shuf))
+                st, cyc = sc.impl_schedule(ins, method, perm, log2, scheduler=sch, return_cycles_list=True,
+                                           random_shuffle=bool(shuffle))
+                if hist is not None:
+                    hist.append({"kind": "pulse", "ins": specs, "durs": durs, "den": sc.DEN, "shuf": shuf, "cycles": True})
+            impl.append((st, starts, cyc, shuf, list(hist) if hist is not None else None))
             lines.append(sc.model_line(method, perm, fields, shuf))
         outs = ctx.driver("drv_sched").run(lines)
-        for (specs, durs, method, perm, shuffle), o, (st, starts, cyc, shuf) in zip(batch, outs, impl):
+        for (specs, durs, method, perm, shuffle), o, (st, starts, cyc, shuf, hist) in zip(batch, outs, impl):
             used = [sc.used_of(s) for s in specs]
             nontriv = any(used[i] & used[j] for i in range(len(specs)) for j in range(i + 1, len(specs)))
             inp = {"ins": [[s[0], s[1], s[2], d] for s, d in zip(specs, durs)], "method": method, "perm": perm, "shuf": shuf}
+            if hist is not None:
+                inp["calls_before_on_this_scheduler"] = [[[g[0], g[1], g[2], d] for g, d in zip(c["ins"], c["durs"])] + [c["cycles"]]
+                                                          for c in hist[:-2]]
             res.case(inp, nontrivial=nontriv, tags=[tag, f"len={len(specs)}", f"method={method}", f"perm={int(perm)}",
-                                                    f"shuffle={int(bool(shuffle))}"])
-            w = {"ins": specs, "durs": durs, "den": sc.DEN, "method": method, "perm": perm, "shuf": shuf, "scope": "covered"}
+                                                    f"shuffle={int(bool(shuffle))}",
+                                                    "history=%d" % (0 if hist is None else min(len(hist), 6))])
+            if hist is None:
+                w = {"ins": specs, "durs": durs, "den": sc.DEN, "method": method, "perm": perm, "shuf": shuf, "scope": "covered"}
+            else:
+                w = {"history": hist, "method": method, "perm": perm, "scope": "covered"}
             m = sc.parse_model(o)
             mm = used_mismatch(specs)
             if mm:
@@ -227,6 +269,9 @@ class C11(PropertyCheck):
 
     def correspondence(self, ctx, res):
         rng = ctx.rng
+        self._chain = sc.SchedulerChain()
+        res.notes.append("about a third of the cases are calls on a Scheduler object already used for up to 4 earlier calls of "
+                         "the same setting (tag history=k); the model is stateless")
         settings = [(m, p) for m in ("ASAP", "ALAP") for p in (True, False)]
         # exhaustive: short lists over a small alphabet with two durations ----------------------
         alpha = [("CNOT", [1], [0]), ("CNOT", [2], [0]), ("CNOT", [2], [1]), ("SNOT", [2], []), ("X", [1], []), ("Z", [0], [])]
@@ -271,7 +316,58 @@ class C11(PropertyCheck):
         self._flush(ctx, res, batch, "degenerate")
 
     # ----------------------------------------------------------------------------------
+    def _replay_history(self, ctx, w):
+        """several schedule() calls on ONE Scheduler object (pulse output / cycles output / gate mode); the five clauses are
+        evaluated on every pulse-mode start-time result (with the cycles of the following call when it asks for them on the
+        same instruction list)"""
+        _, _, Scheduler, _, _ = sc._mods()
+        method, perm = w["method"], w["perm"]
+        sch = Scheduler(method, allow_permutation=perm)
+        calls = w["history"]
+        results = [sc.run_call(sch, c, method, perm, gate_of=gate_obj) for c in calls]
+        n = len(calls)
+        for k, (c, (st, r)) in enumerate(zip(calls, results)):
+            if c["kind"] != "pulse" or c.get("cycles") or not c["ins"] or all(not sc.used_of(s) for s in c["ins"]):
+                continue
+            if st != "ok":
+                return True, f"call {k + 1} of {n} on one Scheduler object: schedule raised: {st}"
+            cycles = None
+            if k + 1 < n and calls[k + 1].get("cycles") and calls[k + 1]["kind"] == "pulse" and \
+                    calls[k + 1]["ins"] == c["ins"] and calls[k + 1]["durs"] == c["durs"] and results[k + 1][0] == "ok":
+                cycles = results[k + 1][1]
+            durs = [d / c["den"] for d in c["durs"]]
+            bad = timetable_checks(c["ins"], durs, [float(x) for x in r], perm, w.get("scope", "full"),
+                                   tol=w.get("tol", 0.0), cycles=cycles)
+            if bad:
+                return True, (f"call {k + 1} of {n} on one Scheduler object (instructions "
+                              f"{[[g[0], g[1], g[2]] for g in c['ins']]}, durations {durs}): " + bad)
+        return False, f"{n} calls on one Scheduler object: every returned timetable is valid"
+
+    HIST_POOL = [("CNOT", [1], [0]), ("CNOT", [2], [0]), ("CNOT", [0], [1]), ("SNOT", [0], []), ("X", [1], []),
+                 ("RZ", [0], []), ("RX", [0], []), ("Z", [1], []), ("SWAP", [0, 1], [])]
+
+    def _history_witnesses(self, rng, count):
+        """random histories: 2-3 instruction lists of length 2-4 over HIST_POOL with durations in {1, 2, 5}, scheduled one
+        after the other on ONE Scheduler object, each as a start-time call followed (mostly) by a cycles call; now and then
+        a gate-mode call in between"""
+        for _ in range(count):
+            calls = []
+            for _ in range(rng.randint(2, 3)):
+                L = rng.randint(2, 4)
+                specs = specs_from([rng.choice(self.HIST_POOL) for _ in range(L)])
+                if rng.random() < 0.2:
+                    calls.append({"kind": "gate", "N": 3, "gates": specs, "shuf": None, "repeat": 0, "cycles": rng.random() < 0.5,
+                                  "as_circuit": False})
+                    continue
+                durs = [rng.choice([1, 2, 5]) for _ in range(L)]
+                calls.append({"kind": "pulse", "ins": specs, "durs": durs, "den": 1, "shuf": None, "cycles": False})
+                if rng.random() < 0.7:
+                    calls.append({"kind": "pulse", "ins": specs, "durs": durs, "den": 1, "shuf": None, "cycles": True})
+            yield {"history": calls, "method": rng.choice(["ASAP", "ALAP"]), "perm": True, "scope": "covered"}
+
     def oracle_replay(self, ctx, w):
+        if "history" in w:
+            return self._replay_history(ctx, w)
         specs, den, method, perm = w["ins"], w.get("den", 1), w["method"], w["perm"]
         durs = [d / den for d in w["durs"]]
         if not specs:
@@ -348,7 +444,10 @@ class C11(PropertyCheck):
             if f:
                 yield w, d
         while time.time() - t0 < budget_s:
-            w = self._random_witness(ctx.rng, floats=ctx.rng.random() < 0.3)
+            if ctx.rng.random() < 0.3:
+                w = next(self._history_witnesses(ctx.rng, 1))
+            else:
+                w = self._random_witness(ctx.rng, floats=ctx.rng.random() < 0.3)
             f, d = self.oracle_replay(ctx, w)
             if f:
                 yield w, d
@@ -363,6 +462,11 @@ class C11(PropertyCheck):
                 yield w, d
         for k in range(300):
             w = self._random_witness(ctx.rng, floats=(k % 3 == 0))
+            f, d = self.oracle_replay(ctx, w)
+            if f:
+                yield w, d
+        # histories: one Scheduler object used for several instruction lists
+        for w in self._history_witnesses(ctx.rng, 300):
             f, d = self.oracle_replay(ctx, w)
             if f:
                 yield w, d
